@@ -119,8 +119,12 @@ def case_hand_vs_ad(which, rep):
             ul, _ = reg["tt.updated_lagrange(neo-hooke sigma)"].make(rng)
             tl.kwargs.update(mu=mu, lmbda=lm)
             ul.kwargs.update(mu=mu, lmbda=lm)
+            tlj, _ = reg["jax.total_lagrange(neo-hooke S)"].make(rng)
+            ulj, _ = reg["jax.updated_lagrange(neo-hooke sigma)"].make(rng)
+            tlj.kwargs.update(mu=mu, lmbda=lm)
+            ulj.kwargs.update(mu=mu, lmbda=lm)
             impl = {"NeoHookeCompressible": fem.NeoHookeCompressible(mu=mu, lmbda=lm), "LinearElasticLargeStrain(lame_converter)": fem.LinearElasticLargeStrain(E=E, nu=nu),
-                    "total_lagrange(S)": tl, "updated_lagrange(sigma)": ul}
+                    "total_lagrange(S)": tl, "updated_lagrange(sigma)": ul, "jax.total_lagrange(S)": tlj, "jax.updated_lagrange(sigma)": ulj}
             svs = {k: None for k in impl}
         elif which == "OgdenRoxburgh":
             r, m, beta = float(rng.uniform(1.5, 4)), float(rng.uniform(0.5, 2)), float(rng.uniform(0, 0.3))
@@ -287,7 +291,8 @@ def _required():
         req += ["jax~tensortrax:%s:stress" % n, "jax~tensortrax:%s:elasticity" % n]
     req += ["jax~tensortrax:lagrange.morph:stress", "jax~tensortrax:lagrange.morph_representative_directions:stress",
             "NeoHooke(mu)~tt.neo_hooke:stress", "NeoHooke(mu)~jax.neo_hooke:elasticity", "NeoHookeCompressible~LinearElasticLargeStrain(lame_converter):stress",
-            "NeoHookeCompressible~total_lagrange(S):stress", "NeoHookeCompressible~updated_lagrange(sigma):elasticity",
+            "NeoHookeCompressible~total_lagrange(S):stress", "NeoHookeCompressible~updated_lagrange(sigma):elasticity", "NeoHookeCompressible~jax.updated_lagrange(sigma):stress",
+            "NeoHookeCompressible~jax.total_lagrange(S):stress",
             "OgdenRoxburgh(NeoHooke)~tt.ogden_roxburgh(neo_hooke):stress", "OgdenRoxburgh(NeoHooke)~tt.ogden_roxburgh(neo_hooke):statevars",
             "linear:definition", "linear:tensor-notation", "linear:material-strain", "linear:plane-strain", "linear:plane-stress",
             "linear:orthotropic", "linear:orthotropic-iso"]
